@@ -47,4 +47,8 @@ VARIANTS = [
     dict(name='benign-read-back-inlined', expect='silent', edits=[
         dict(file=D, old="        first_name = residue_nodes[0]\n        first_node = molecule.nodes[first_name]\n        value = first_node.get(attribute, default)\n        yield value",
              new="        yield molecule.nodes[residue_nodes[0]].get(attribute, default)")]),
+    dict(name='helper selector_has_position by truthiness of the finite test', expect='fire', key='HELPER-contract|vermouth/selectors.py|selector_has_position', edits=[
+        dict(file='vermouth/selectors.py', old="    return position is not None and np.all(np.isfinite(position))", new="    return position is not None and np.all(position) and np.all(np.isfinite(position))")]),
+    dict(name='helper filter_minimal drops the extra arguments', expect='fire', key='HELPER-contract|vermouth/selectors.py|filter_minimal', edits=[
+        dict(file='vermouth/selectors.py', old="        if selector(atom, *args, **kwargs):", new="        if selector(atom):")]),
 ]
